@@ -28,6 +28,8 @@ const FLAT_THRESHOLD: usize = 16 * 1024; // 16 KiB
 const V2_SOCKET_TYPE_OFFSET: usize = SIGNATURE_LENGTH + 1; // 11
 /// Total length of a ZMTP/2.0 greeting header: signature + revision + socket-type.
 const V2_GREETING_LENGTH: usize = SIGNATURE_LENGTH + 2; // 12
+/// `FrameBatch` is backed by a 255-element vector; a longer multipart message cannot be held.
+const MAX_FRAMES_PER_MESSAGE: usize = 255;
 
 /// Negotiated ZMTP wire-protocol version for a connection.
 #[derive(Debug, Clone, Copy, PartialEq, Eq)]
@@ -768,6 +770,16 @@ impl ZmtpEngine {
       }
 
       let is_more = msg.is_more();
+      if self.partial_batch.len() >= MAX_FRAMES_PER_MESSAGE {
+        self.fail(
+          out,
+          ZmqError::ProtocolViolation(format!(
+            "Peer sent a message with more than {} frames",
+            MAX_FRAMES_PER_MESSAGE
+          )),
+        );
+        return;
+      }
       self.partial_batch.push(msg);
       if !is_more {
         let batch = std::mem::replace(&mut self.partial_batch, FrameBatch::new());
